@@ -372,7 +372,7 @@ impl rustc_driver::Callbacks for Cb {
                         vs.push(format!("{{\"n\":{},\"fields\":[{}],\"attrs\":[{}]}}", js(&v.name.to_string()), fs.join(","), vattrs.join(",")));
                     }
                     let attrs: Vec<String> = tcx.get_all_attrs(did).iter().filter_map(|a| match a { rustc_hir::Attribute::Unparsed(item) => tcx.sess.source_map().span_to_snippet(item.span).ok(), _ => None }).map(|x| js(&x)).collect();
-                    extra.push(format!("{{\"adt\":{},\"pub\":{},\"is_enum\":{},\"span\":{},\"variants\":[{}],\"attrs\":[{}]}}", js(&tcx.def_path_str(did)), tcx.visibility(did).is_public(), adt.is_enum(), span_json(tcx, tcx.def_span(did)), vs.join(","), attrs.join(",")));
+                    extra.push(format!("{{\"adt\":{},\"pub\":{},\"reach\":{},\"is_enum\":{},\"span\":{},\"variants\":[{}],\"attrs\":[{}]}}", js(&tcx.def_path_str(did)), tcx.visibility(did).is_public(), tcx.effective_visibilities(()).is_reachable(id), adt.is_enum(), span_json(tcx, tcx.def_span(did)), vs.join(","), attrs.join(",")));
                 }
                 DefKind::Impl { of_trait } => {
                     let self_ty = format!("{}", tcx.type_of(did).instantiate_identity().skip_norm_wip());
